@@ -65,6 +65,89 @@ def scan_writes(tree, modname, relpath, parents):
     return out
 
 
+def _mutable_expr(e):
+    if isinstance(e, (ast.List, ast.Dict, ast.Set, ast.ListComp, ast.DictComp, ast.SetComp)):
+        return True
+    if isinstance(e, ast.Call):
+        if isinstance(e.func, ast.Name) and e.func.id in ("list", "dict", "set", "bytearray", "sorted"):
+            return True
+        if isinstance(e.func, ast.Attribute) and e.func.attr in ("split", "rsplit", "splitlines", "copy", "findall", "partition") \
+                and e.func.attr != "partition":
+            return True
+    return False
+
+
+def _elements_mutable(e):
+    """Does the table expression hold mutable containers as its ELEMENTS (values of a dict, items of a list / tuple)?"""
+    if isinstance(e, ast.Dict):
+        return any(_mutable_expr(v) for v in e.values)
+    if isinstance(e, ast.DictComp):
+        return _mutable_expr(e.value)
+    if isinstance(e, (ast.List, ast.Tuple, ast.Set)):
+        return any(_mutable_expr(v) for v in e.elts)
+    if isinstance(e, (ast.ListComp, ast.GeneratorExp)):
+        return _mutable_expr(e.elt)
+    if isinstance(e, ast.Call) and isinstance(e.func, ast.Name) and e.func.id in ("dict", "list", "tuple") and e.args:
+        return _elements_mutable(e.args[0])
+    return False
+
+
+def scan_escaping_refs(m, parents):
+    """A function that RETURNS an element of a class-level / module-level table by reference, when those elements are
+    mutable containers: any caller that updates the result in place updates the table for the rest of the process
+    (history dependence through an alias, invisible to the direct-mutation rule)."""
+    out = []
+    tables = {}          # (class name | None, mangled name) -> True
+    for name, expr in m.assigns.items():
+        if _elements_mutable(expr):
+            tables[(None, name)] = True
+    for ci in m.classes.values():
+        for name, expr in ci.attrs.items():
+            if _elements_mutable(expr):
+                tables[(ci.name, name)] = True
+    if not tables:
+        return out
+
+    def table_of(base, cl):
+        if isinstance(base, ast.Attribute) and isinstance(base.value, ast.Name):
+            owner = base.value.id
+            for (c, n) in tables:
+                if c is not None and n == mangle(base.attr, c) and (owner in ("__class__", "self", "cls") and c == cl or owner == c):
+                    return f"{c}.{base.attr}"
+        if isinstance(base, ast.Name) and (None, base.id) in tables:
+            return base.id
+        return None
+
+    def element_ref(v, cl):
+        if isinstance(v, ast.Subscript):
+            return table_of(v.value, cl)
+        if isinstance(v, ast.Call) and isinstance(v.func, ast.Attribute) and v.func.attr in ("get", "setdefault", "pop", "__getitem__"):
+            return table_of(v.func.value, cl)
+        return None
+    for fn in ast.walk(m.tree):
+        if not isinstance(fn, ast.FunctionDef):
+            continue
+        cl = _cl(fn, parents)
+        aliases = {}
+        for n in ast.walk(fn):
+            if isinstance(n, ast.Assign) and len(n.targets) == 1 and isinstance(n.targets[0], ast.Name):
+                t = element_ref(n.value, cl)
+                if t:
+                    aliases[n.targets[0].id] = t
+            elif isinstance(n, ast.NamedExpr) and isinstance(n.target, ast.Name):
+                t = element_ref(n.value, cl)
+                if t:
+                    aliases[n.target.id] = t
+        for n in ast.walk(fn):
+            if isinstance(n, ast.Return) and n.value is not None and _direct_function(n, parents) is fn:
+                vals = [n.value] + ([n.value.body, n.value.orelse] if isinstance(n.value, ast.IfExp) else [])
+                for v in vals:
+                    t = element_ref(v, cl) or (aliases.get(v.id) if isinstance(v, ast.Name) else None)
+                    if t:
+                        out.append((n, f"`{fn.name}` returns an element of the shared table `{t}` (a mutable container) by reference"))
+    return out
+
+
 def _fnode(node, parents):
     p = parents.get(node)
     while p is not None and not isinstance(p, ast.FunctionDef):
@@ -601,6 +684,91 @@ class P:
 '''
 
 
+def _history(ctx, model):
+    """One interpreter instance stands for one process: class-level and module-level objects are evaluated once and
+    live on.  A script of constructions and operations is interpreted three times in the same instance; every step
+    must emit the same text each time, and the same text as in a fresh instance (no state survives a call)."""
+    from ..interp import Interp, Hooks, PyRaise, Obj
+    CL, QU, GR, OP, ASR = ("pregex.core.classes", "pregex.core.quantifiers", "pregex.core.groups", "pregex.core.operators",
+                           "pregex.core.assertions")
+    P = model.pregex
+    K = lambda mod, name, *a: ("new", mod, name, a)
+    script = [
+        K(CL, "AnyDigit"), K(CL, "AnyLetter"), K(CL, "AnyWordChar"), K(CL, "AnyBetween", "0", "9"), K(CL, "AnyFrom", "a", "b", "c", "x"),
+        ("op", "|", K(CL, "AnyDigit"), ":"), ("op", "|", K(CL, "AnyDigit"), "/"), ("op", "|", K(CL, "AnyLowercaseLetter"), "{"),
+        ("op", "|", K(CL, "AnyUppercaseLetter"), "@"), ("op", "|", K(CL, "AnyLetter"), "["), ("op", "-", K(CL, "AnyLetter"), "m"),
+        ("op", "|", K(CL, "AnyBetween", "a", "f"), K(CL, "AnyBetween", "g", "k")), ("op", "-", K(CL, "AnyWordChar"), K(CL, "AnyDigit")),
+        ("inv", K(CL, "AnyFrom", "a", "]")), K(CL, "AnyPunctuation"), K(CL, "AnyWhitespace"),
+        K(QU, "Optional", "ab"), K(QU, "AtLeastAtMost", "(ab)", 2, 10), K(QU, "Exactly", "[xyz]", 2), K(GR, "Capture", "ab", "nm"),
+        K(GR, "Group", K(GR, "Capture", "ab"), True), K(OP, "Either", "a", "b|c", "d"), K(OP, "Concat", "a", "b|c"),
+        K(ASR, "FollowedBy", "a", "b"), K(ASR, "NotPrecededBy", "a", "b"), ("pregex", "(ab)"), ("pregex", "\\d"), ("pregex", "a|b"),
+    ]
+
+    def ev(it, step):
+        if isinstance(step, str) or isinstance(step, (int, bool)):
+            return step
+        kind = step[0]
+        if kind == "new":
+            _, mod, name, a = step
+            return it.construct(model.cls(mod, name), [ev(it, x) for x in a])
+        if kind == "pregex":
+            return it.construct(P, [step[1]])
+        if kind == "op":
+            return it.binop(ast.BitOr() if step[1] == "|" else ast.Sub(), ev(it, step[2]), ev(it, step[3]), None)
+        if kind == "inv":
+            o = ev(it, step[1])
+            return it.call(__import__("sa.interp", fromlist=["FuncRef"]).FuncRef(o.cls.find_method("__invert__"), o, True), [])
+        raise AssertionError(step)
+
+    def text(it, step):
+        try:
+            v = ev(it, step)
+            return v.fields.get("_Pregex__pattern") if isinstance(v, Obj) else repr(v)
+        except PyRaise as e:
+            return "!" + e.name
+    shared = Interp(model, Hooks(), fuel=50_000_000)
+    rounds = [[text(shared, st) for st in script] for _ in range(3)]
+    fresh = [text(Interp(model, Hooks(), fuel=5_000_000), st) for st in script]
+    f_cls = model.method("pregex.core.classes", "__Class", "__init__")
+    for i, st in enumerate(script):
+        label = _step_label(st)
+        ctx.instance("R-HISTORY", key=label, sample=f"{label}: {fresh[i]!r} in a fresh process and at every repetition of the script")
+        got = {fresh[i]} | {r[i] for r in rounds}
+        if len(got) != 1:
+            where = model.method("pregex.core.pre", "Pregex", "__init__") if st[0] == "pregex" or (st[0] == "new" and "classes" not in st[1]) else f_cls
+            ctx.violation("R-HISTORY", where.relpath, where.short, "<result depends on earlier calls>",
+                          "the same expression yields different patterns depending on what was built before it in the process",
+                          where.node.lineno, inp=label,
+                          detail=f"fresh: {fresh[i]!r}; in the script, rounds 1-3: {[r[i] for r in rounds]}")
+
+
+def _step_label(st):
+    if isinstance(st, (str, int, bool)):
+        return repr(st)
+    if st[0] == "new":
+        return f"{st[2]}({', '.join(_step_label(x) for x in st[3])})"
+    if st[0] == "pregex":
+        return f"Pregex({st[1]!r})"
+    if st[0] == "op":
+        return f"{_step_label(st[2])} {st[1]} {_step_label(st[3])}"
+    return f"~{_step_label(st[1])}"
+
+
+FIXTURE_ALIAS = '''
+_SPLIT = {k: k.split("-") for k in ("a-z", "0-9")}
+_NAMES = {"a": "b"}
+class Q:
+    __ranges = {"a-z": ["a", "z"]}
+    def fast(self, k):
+        return __class__.__ranges[k] if k in __class__.__ranges else k.split("-")
+    def slow(self, k):
+        hit = _SPLIT.get(k)
+        return hit
+    def fine(self, k):
+        return list(_SPLIT[k]), _NAMES[k]
+'''
+
+
 def run(ctx, model: Model):
     from ..absdom import cache_field
     CACHE_FIELD[0] = cache_field(model)
@@ -632,6 +800,16 @@ def run(ctx, model: Model):
     fm = [pm for n in ast.walk(ft) if isinstance(n, ast.FunctionDef) for pm in param_mutations(n, fpar)[0]]
     if len(fw) < 2 or len(fs) < 4 or len(fh) < 3 or not fm:
         raise AnalysisError(f"positive control failed: writes={len(fw)} shared={len(fs)} hidden={len(fh)} argmut={len(fm)}")
+    import types as _types
+    ft2 = ast.parse(FIXTURE_ALIAS)
+    fm2 = _types.SimpleNamespace(
+        tree=ft2, assigns={t.id: st.value for st in ft2.body if isinstance(st, ast.Assign) for t in st.targets if isinstance(t, ast.Name)},
+        classes={c.name: _types.SimpleNamespace(name=c.name, attrs={mangle(t.id, c.name): st.value for st in c.body if isinstance(st, ast.Assign)
+                                                                     for t in st.targets if isinstance(t, ast.Name)})
+                 for c in ft2.body if isinstance(c, ast.ClassDef)})
+    fe = scan_escaping_refs(fm2, _parents(ft2))
+    if len(fe) != 2:
+        raise AnalysisError(f"positive control failed: escaping references to shared tables flagged = {len(fe)} (2 expected)")
     ctx.instance("R-WRITEONCE", key="fixture", sample=f"positive control: {len(fw)} illegal stores flagged in the fixture")
     ctx.instance("R-NOSHARED", key="fixture", sample=f"positive control: {len(fs)} shared-state mutations flagged in the fixture")
     ctx.instance("R-NOHIDDEN", key="fixture", sample=f"positive control: {len(fh)} hidden inputs flagged in the fixture")
@@ -660,8 +838,14 @@ def run(ctx, model: Model):
         for node, reason in scan_shared(m.tree, model.parents, class_attrs, module_names):
             ctx.violation("R-NOSHARED", m.relpath, _fn(node, model.parents), norm_text(_stmt(node, model.parents)),
                           f"shared or instance state is mutated: {reason}", node.lineno)
+        for node, reason in scan_escaping_refs(m, model.parents):
+            ctx.violation("R-NOSHARED", m.relpath, _fn(node, model.parents), norm_text(_stmt(node, model.parents)),
+                          f"shared state can be mutated through an alias: {reason}", node.lineno)
     ctx.instance("R-NOSHARED", key="tables", sample=f"{n_tables} class-level/module-level names guarded", n=max(n_tables, 1))
     ctx.floor("R-NOSHARED", n_tables, 3, "class-level / module-level tables")
+
+    # --------------------------------------------------- R-HISTORY (semantic companion of R-NOSHARED / R-WRITEONCE)
+    _history(ctx, model)
 
     # --------------------------------------------------- R-NOARGMUT
     funcs = list(model.all_functions())
